@@ -132,7 +132,8 @@ def wlyLoop (c : WlyCtx) : Nat → Nat → Nat → Nat → Nat → List Inst →
     | none => none
     | some (res, true) => some res
     | some (res, false) =>
-      -- the loop's increment expression
+      -- the loop's increment expression; `if (rr->inter > (UINT_MAX - 31U) / 7U) goto fin;` first
+      if c.r.inter % u32 > (u32 - 1 - 31) / 7 then some res else
       let d := (d + (c.r.inter % u32 * 7) % u32) % u32
       match carryMon (d + 1) y m d maxd with
       | none => none
